@@ -30,7 +30,8 @@ DISK = {
 	'c': 'def make() -> int:\n\treturn 1\n',
 	'b': 'from vm.c import make\n\nv = make()\n',
 	'a': 'from vm.b import v\n\nx = v\n\ndef twice(n: int) -> int:\n\treturn n * 2 + x\n',
-	'd': 'class K:\n\tn: int\n\tdef __init__(self, n: int) -> None:\n\t\tself.n = n\n\nk = K(1)\n',
+	# (the generic function stands at the same tree path as the only function of a and of c: anything remembered per tree path across modules shows)
+	'd': "from typing import TypeVar\n\nT = TypeVar('T')\n\nclass K:\n\tn: int\n\tdef __init__(self, n: int) -> None:\n\t\tself.n = n\n\ndef ident(v: T) -> T:\n\treturn v\n\nk = K(1)\n",
 }
 MAIN = {
 	'ia': 'from vm.a import x, twice\n\nm = twice(x)\n',
@@ -333,6 +334,15 @@ def run(ctx: Ctx) -> int:
 			k = pk
 		prefix.reverse()
 		paths.append(prefix + [(e['op'], e['to'])])
+	# the specification's state does not tell a module that was loaded from one that was transpiled (transpiling loads):
+	# the breadth-first tree reaches a state by whichever came first.  What the transpiler itself remembers between
+	# transpiles is not in that state, so every history that ends in a transpile is replayed a second time with the
+	# loads of disk modules on the way done by transpiling them
+	variants = []
+	for path in paths:
+		if path[-1][0]['name'] == 'transpile' and any(op['name'] == 'load' and op['m'] != 'main' and op['res'] == 'ok' for op, _ in path[:-1]):
+			variants.append([({'name': 'transpile', 'm': op['m'], 'res': 'ok'}, to) if op['name'] == 'load' and op['m'] != 'main' and op['res'] == 'ok' else (op, to) for op, to in path[:-1]] + [path[-1]])
+	paths = paths + variants
 	nproc = 16
 	with ProcessPoolExecutor(max_workers=nproc) as ex:
 		results = list(ex.map(_replay, [(paths[i::nproc],) for i in range(nproc)]))
